@@ -388,9 +388,52 @@ class C16Objects:
                 except Exception:
                     pass
                 self.check_public_object(pub2, 'HDKey.public()', primed + ['public.wif'])
+            self.address_and_transaction_views(s, primed)
         else:
             self.wallet_views(s, primed)
         w.outcome('checked')
+
+    def text_views(self, what, views, primed):
+        for name, fn in views:
+            try:
+                self.check_text(fn(), '%s.%s' % (what, name), primed)
+            except StopRun:
+                raise
+            except Exception as e:
+                self.w.probe('view_raised:%s.%s:%s' % (what, name, type(e).__name__))
+
+    def address_and_transaction_views(self, s, primed):
+        """Default text forms of the address object of a private key and of a transaction signed with it."""
+        from bitcoinlib.transactions import Transaction
+        obj, kind = s['obj'], s['kind']
+        try:
+            a = obj.address_obj
+        except Exception:
+            a = None
+        if a is not None:
+            self.text_views('Address', [('as_dict()', a.as_dict), ('as_json()', a.as_json), ('repr', lambda: repr(a)),
+                                        ('str', lambda: str(a))], primed)
+            self.check_public_object(a, 'Address', primed)
+        wt = getattr(obj, 'witness_type', None) or 'legacy'
+        if not obj.compressed:
+            wt = 'legacy'
+        try:
+            t = Transaction(network=self.network, witness_type='legacy' if wt == 'legacy' else 'segwit')
+            t.add_input(prev_txid=rhashes.sha256(s['label'].encode()).hex(), output_n=0, keys=obj, value=150000,
+                        witness_type=wt, compressed=obj.compressed)
+            t.add_output(120000, address=rcodec.p2pkh_address(rec.pub_from_priv(777, True), self.network))
+            t.sign(obj)
+        except StopRun:
+            raise
+        except Exception as e:
+            self.w.probe('transaction_subject_failed:%s' % type(e).__name__)
+            return
+        self.w.probe('transaction_views_checked')
+        self.text_views('Transaction', [('as_dict()', t.as_dict), ('as_json()', t.as_json), ('repr', lambda: repr(t)),
+                                        ('str', lambda: str(t)), ('info()', lambda: self.capture(t.info)),
+                                        ('raw_hex()', t.raw_hex),
+                                        ('inputs.as_dict()', lambda: [i.as_dict() for i in t.inputs]),
+                                        ('outputs.as_dict()', lambda: [o.as_dict() for o in t.outputs])], primed)
 
     def wallet_views(self, s, primed):
         w = self.w
@@ -420,6 +463,10 @@ class C16Objects:
                 w.probe('view_raised:%s' % type(e).__name__)
         kp = wl.key(k.key_id).public()
         self.check_public_object(kp, 'WalletKey.public()', primed)
+        # the wallet's listings
+        self.text_views('Wallet', [('utxos()', wl.utxos), ('transactions(as_dict=True)',
+                                                          lambda: wl.transactions(as_dict=True, include_new=True)),
+                                   ('addresslist()', wl.addresslist), ('accounts()', wl.accounts)], primed)
         # watch-only wallet created from the export
         if self.ch.coin('watch', 0.4) and not getattr(self, 'watch_done', False):
             self.watch_done = True
@@ -642,6 +689,28 @@ class C16Storage:
                 w.probe('send_unverified')
             if ok and t is not None and t.verified:
                 w.probe('wallet_signs_with_encrypted_storage')
+            if ok and t is not None and ch.coin('tx_views', 0.5):
+                # default text forms of the transaction the wallet has just created and signed, and of its listings
+                buf = io.StringIO()
+                views = [('WalletTransaction.as_dict()', t.as_dict), ('WalletTransaction.as_json()', t.as_json),
+                         ('WalletTransaction.repr', lambda: repr(t)), ('WalletTransaction.export()', t.export),
+                         ('Wallet.utxos()', wl.utxos),
+                         ('Wallet.transactions(as_dict=True)', lambda: wl.transactions(as_dict=True, include_new=True))]
+                for name, fn in views:
+                    try:
+                        text = fn()
+                    except StopRun:
+                        raise
+                    except Exception as e:
+                        w.probe('view_raised:%s' % type(e).__name__)
+                        continue
+                    if not isinstance(text, str):
+                        text = json.dumps(text, default=repr) if isinstance(text, (dict, list)) else repr(text)
+                    hit = self.reg.search_text(text)
+                    w.probe('default_text_checked')
+                    if hit:
+                        w.violation('private_material_in_default_export', {'view': name},
+                                    '%s of a wallet with encrypted storage contains %s' % (name, hit))
         elif kind == 'reopen':
             w.op('reopen')
             try:
